@@ -29,6 +29,7 @@ class Parser:
         Returns:
             Parser.
         """
+        self._entrypoint_cell_has_been_changed = self._entrypoint_cell_has_been_changed or not self._safety_check
         self._safety_check = True
         return self
 
@@ -39,6 +40,7 @@ class Parser:
         Returns:
             Parser.
         """
+        self._entrypoint_cell_has_been_changed = self._entrypoint_cell_has_been_changed or self._safety_check
         self._safety_check = False
         return self
 
@@ -67,6 +69,7 @@ class Parser:
             Parser.
         """
         self._entrypoint_cell = cell
+        self._entrypoint_cell_has_been_changed = True
         return self
 
     def _translate(self) -> Parser:
